@@ -303,6 +303,85 @@ pub fn run(cx: &mut Cx) {
         );
     }
 
+    // Structural sweep: the number of groups side by side, the nesting depth
+    // and the number of expansions each taken through every value up to 70
+    // and around the powers of two (a cap, a fixed-size table or a depth
+    // guard inside the matcher shows at its threshold and nowhere else).
+    if cx.tier != Tier::Mini {
+        let mut counts: Vec<usize> = (1..=70).collect();
+        counts.extend([100usize, 127, 128, 129, 200, 255, 256, 257, 300]);
+        let mut shapes: Vec<(String, Vec<String>, &'static str)> = vec![];
+        for &g in &counts {
+            // g groups side by side; the first three have two alternatives
+            let mut p = String::new();
+            for i in 0..g {
+                p.push_str(if i < 3 { "{a,b}" } else { "{a}" });
+            }
+            p.push_str("-1.0");
+            let all_a = "a".repeat(g);
+            let mut names = vec![format!("{all_a}-1.0"), format!("{}-1.0", "a".repeat(g + 1)), format!("{}-1.0", "a".repeat(g - 1))];
+            names.push(format!("b{}-1.0", "a".repeat(g - 1)));
+            names.push(format!("{}c-1.0", "a".repeat(g - 1)));
+            if g >= 4 {
+                names.push(format!("bbb{}-1.0", "a".repeat(g - 3)));
+                names.push(format!("{}b-1.0", "a".repeat(g - 1)));
+            }
+            shapes.push((p, names, "flat-groups"));
+            // g levels of nesting around one literal
+            let p = format!("{}a{}-1.0", "{".repeat(g), "}".repeat(g));
+            shapes.push((p, vec!["a-1.0".into(), "b-1.0".into(), "-1.0".into(), "aa-1.0".into()], "nested-single"));
+            // g levels of nesting with an alternative at every level
+            let p = format!("{}y{}-1.0", "{x,".repeat(g), "}".repeat(g));
+            shapes.push((p, vec!["x-1.0".into(), "y-1.0".into(), "z-1.0".into(), "xy-1.0".into(), "-1.0".into()], "nested-alternatives"));
+        }
+        let max2 = cx.pick_tier(4usize, 8, 12, 13);
+        for n in 1..=max2 {
+            // 2^n expansions; the last one in expansion order is all 'b'
+            let p = format!("{}-1.0", "{a,b}".repeat(n));
+            let mixed: String = (0..n).map(|i| if i % 2 == 0 { 'b' } else { 'a' }).collect();
+            let names = vec![
+                format!("{}-1.0", "a".repeat(n)),
+                format!("{}-1.0", "b".repeat(n)),
+                format!("{mixed}-1.0"),
+                format!("{}a-1.0", "b".repeat(n - 1)),
+                format!("{}c-1.0", "b".repeat(n - 1)),
+                format!("{}-1.0", "b".repeat(n + 1)),
+            ];
+            shapes.push((p, names, "two-way-groups"));
+        }
+        let max3 = cx.pick_tier(2usize, 5, 7, 8);
+        for n in 1..=max3 {
+            let p = format!("{}>=1", "{a,b,c}".repeat(n));
+            let names = vec![
+                format!("{}-1.0", "a".repeat(n)),
+                format!("{}-1.0", "c".repeat(n)),
+                format!("{}b-0.9", "c".repeat(n - 1)),
+                format!("{}b-1.9", "c".repeat(n - 1)),
+                format!("{}d-1.0", "c".repeat(n - 1)),
+            ];
+            shapes.push((p, names, "three-way-groups"));
+        }
+        for (i, (p, names, kind)) in shapes.iter().enumerate() {
+            if !cx.mine(i as u64) {
+                continue;
+            }
+            let (groups, depth) = brace_stats(p);
+            let ex = opat::count_expansions(p, 1 << 20) as u64;
+            let work = (names.len() as u64 + 2) * (ex + 1) * (groups as u64 + 2);
+            cx.set_budget(200_000 + 64 * work, (200_000 + 64 * work).saturating_mul(p.len() as u64 + 256));
+            cx.check(
+                || format!("structural sweep ({kind}, {groups} groups, depth {depth}, {ex} expansions) pattern {p:?} names {names:?}"),
+                |ev| {
+                    ev.count("workload/structural-sweep");
+                    ev.count(&format!("structural/{kind}"));
+                    ev.max("max/groups", groups as u64);
+                    ev.max("max/depth", depth as u64);
+                    check_case(ev, p, names, groups, depth)
+                },
+            );
+        }
+    }
+
     cx.default_budget();
 
     // Exhaustive sweep over short strings of the brace alphabet.
